@@ -8,7 +8,7 @@ FIELDS = ["str", "val", "raw_user", "raw_password", "raw_path", "raw_query_strin
 
 
 def run(out, sc, tier, seed):
-    run_quoter_level(out, sc, tier, seed, "C02")
-    n = 12000 if tier == "quick" else 300000
+    run_quoter_level(out, sc, tier, seed, "C02", bounds=({"charcore": 4} if tier == "thorough" else None))
+    n = 12000 if tier == "quick" else 100000
     run_progs(out, sc, "C02", {"gen": "progs", "n": n, "seed": seed, "surrogate_p": 0.03, "fields": FIELDS, "typed": True}, "progs")
     run_harvest(out, sc, "C02")
